@@ -505,7 +505,7 @@ def run(args):
         n, calls = {"quick": (80, 5), "thorough": (900, 8)}[args.tier]
         for _ in range(n):
             worlds.append(build(rng, gen_world20(rng), calls))
-        for _ in range({"quick": 50, "thorough": 500}[args.tier]):
+        for _ in range({"quick": 50, "thorough": 300}[args.tier]):
             aw, plans = gen_alias_world(rng)
             worlds.append(build_alias(rng, aw, plans, calls))
     hashseeds = [0] if args.tier == "quick" else [0, 1, 2]
@@ -569,7 +569,16 @@ def run(args):
                    "<repo>/tests (6 of 17 in quick, all in thorough) with calls over the problem's objects, half of them applicable in the initial state (so repeated "
                    "objects, constants in any position and subtype narrowing occur; counted below).  Three verdicts per call: precondition "
                    "(iterated literals with both texts, numeric trees, (in)equality pairs), effect groups (antecedent, add/delete literals, numeric "
-                   "effects), call texts (typed_action_call with / without objects, str).  Sets are compared as sets.  A verdict is non-trivial "
+                   "effects), call texts (typed_action_call with / without objects, str).  Round 3: 50 (quick) / 300 (thorough) more worlds in which "
+                   "two DIFFERENT schema literals ground to the same atom -- a twin of a parameter (a new parameter of an equal / sub / super type, or a constant "
+                   "written into the schema) and a literal over the parameter plus its copy over the twin, placed as siblings of one connective, at the top level "
+                   "and inside a nested or/and, in two sibling groups, deeply nested, in one effect group, in a 'when' antecedent, as numeric conditions / effects "
+                   "over a unary function; 2/3 of their calls bind both terms to the same object (counted: calls_binding_one_object_to_twin_terms, "
+                   "collections_same_untyped_different_typed, collections_same_typed_reported_twice); and in 12% of the ordinary worlds one literal with a missing or "
+                   "surplus argument (every grounding of that action must raise; counted).  Collections are compared as MULTISETS: with the model exactly "
+                   "(Model.GroundSets: the library's per-connective / per-effect-group sets applied to the report), with the spec between its lower bound "
+                   "(Spec.SubstSet: members of one connective / effect group with the same TYPED form count once) and one item per schema occurrence; numeric "
+                   "conditions and effects exactly; (in)equality pairs as sets; the iteration order of the sets is not compared.  A verdict is non-trivial "
                    "when the call has arguments and the compared collection is non-empty; distinct by input hash.")
     cov["samples"] = [{"domain": (c["input"]["world"]["domain_text"] or str(c["input"]["world"]["fixture"]))[:400],
                        "probe": c["input"]["world"]["probes"][0]} for c in cases[:1] + cases[-2:]]
